@@ -3,7 +3,7 @@
    usage: seeded_reeval.py [id-prefix ...]"""
 import json, os, subprocess, sys, glob
 VERIF = os.path.dirname(os.path.dirname(os.path.abspath(__file__)))
-GO126 = {"C11-emit-hoisted-ticker", "C13-throttle-hoisted-ticker", "C13-output-capacity-plus-ops", "C13-evenly-spread-tokens", "C13-token-channel-2ops", "C11-emit-no-first-pause"}
+GO126 = {"C11-emit-hoisted-ticker", "C13-throttle-hoisted-ticker", "C13-output-capacity-plus-ops", "C13-evenly-spread-tokens", "C13-token-channel-2ops", "C11-emit-no-first-pause", "C13-throttling-permit-batches"}
 for d in sorted(glob.glob(os.path.join(VERIF, "seeded", "*", ""))):
     sid = os.path.basename(os.path.dirname(d))
     if not os.path.exists(os.path.join(d, "meta.json")):
